@@ -294,6 +294,7 @@ func targets() []target {
 		{"google.protobuf.Duration", gen(&durationpb.Duration{})},
 		{"google.protobuf.FieldMask", gen(&fieldmaskpb.FieldMask{})},
 		{"mx.Wide", gen(mk("mx.Wide"))},
+		{"mx.Wkt", gen(mk("mx.Wkt"))},
 		{"google.protobuf.Any", gen(&anypb.Any{})},
 		{"mx.One", gen(mk("mx.One"))},
 	}
